@@ -37,7 +37,7 @@ prop( 'C12', [ 'T-CLIENT-TYPES', 'P-BUNDLE', 'P-FRESH', 'T-PATHSYNTAX', 'S-COMPL
       not_decided='equality of result sequences across depth/bundling settings (dynamic).',
       technique='table extraction from AST + interval containment; guard-shape checks' )
 
-prop( 'C16', [ 'T-RESERVED', 'D-DELEGATE' ],
+prop( 'C16', [ 'T-RESERVED', 'D-DELEGATE', 'D-RESOLVE' ],
       decides='T-RESERVED: every non-dunder name that ordinary attribute lookup finds on a dotdict before __getattr__ (methods '
               'and class attributes of dotdict_base plus dict\'s public API) is refused as a key by the guarded leaf store; '
               'D-DELEGATE: attribute access, get, setdefault and membership are defined through __getitem__/__setitem__ and all '
@@ -108,7 +108,7 @@ prop( 'C18', [ 'T-RECORD', 'X-STATES' ],
       not_decided='exactly-once / in-order / on-time delivery against the clock (schedule and clock dependent).',
       technique='writer/reader field-table agreement (AST patterns); state-table exhaustiveness' )
 
-prop( 'C02', [ 'G-CHUNK', 'G-FRAME', 'P-ACT', 'P-ONE', 'R-SENT', 'R-PROGRESS', 'G-PRIMS' ],
+prop( 'C02', [ 'G-CHUNK', 'G-FRAME', 'P-ACT', 'P-ONE', 'R-ISO', 'R-SENT', 'R-PROGRESS', 'G-PRIMS' ],
       decides='G-CHUNK: in the stream-fed machines (enip_machine incl. enip_header; tnet_machine) no state has both an input edge and a '
               'None edge and no transition predicate inspects the source - i.e. no state\'s successor depends on whether the next byte has '
               'arrived yet (necessary for chunk independence); G-FRAME: the header sub-graph is the single unconditional chain of the six '
@@ -162,7 +162,7 @@ prop( 'C10', [ 'G-BOUND', 'G-REF', 'R-LIMIT', 'R-SENT', 'R-REPEAT', 'G-PRIMS' ],
       technique='reference resolution over extracted grammar graphs; boundedness analysis with a consumption model; AST idiom matching and '
                 'CFG effect counting on the framework' )
 
-prop( 'C09', [ 'R-LOCK-1', 'R-LOCK-2', 'R-LOCK-3', 'R-LOCK-4', 'R-LOCK-5', 'R-ISO', 'R-SNAPSHOT', 'P-CLOSURE' ],
+prop( 'C09', [ 'R-LOCK-1', 'R-LOCK-6', 'R-LOCK-2', 'R-LOCK-3', 'R-LOCK-4', 'R-LOCK-5', 'R-ISO', 'R-SNAPSHOT', 'P-CLOSURE' ],
       decides='lock-discipline clauses.  R-LOCK-1: every <m>.run( source=... ) on a state machine outside automata.py happens while <m> is '
               'held by an enclosing `with ... as <m>` (client.__next__\'s self.frame.run is dominated by self.frame.safe() in a class whose '
               '__enter__/__exit__ delegate to the frame) - covers every interleaving of every number of sessions; R-LOCK-2: class-level '
